@@ -32,26 +32,35 @@ Proof. vm_compute. reflexivity. Qed.
    return and each goroutine's results are the results of its own operations (linearizability);
    the abstract queue never holds more than N, and whenever no writer is inside Add the shared
    queue IS the abstract queue. *)
-Theorem C18_concurrent_snapshots : forall (A : Type) (cap : nat) prog c, (1 <= cap)%nat ->
-  ConcQueue.reach A queue_add_locked queue_get_locked (ConcQueue.init A cap prog) c ->
+Theorem C18_concurrent_snapshots : forall (A : Type) (cap : nat) (wpref : bool) prog c, (1 <= cap)%nat ->
+  ConcQueue.reach A queue_add_locked queue_get_locked wpref (ConcQueue.init A cap prog) c ->
   forall i l, In (ConcQueue.RGet A l) (ConcQueue.outs A c i) ->
   exists pre suf, ConcQueue.added A c = pre ++ suf /\ l = lastn (Nat.min cap (length pre)) pre.
-Proof. intros A cap prog c Hc. exact (ConcQueue.snapshots_are_last_n A cap Hc _ _ eq_refl eq_refl prog c). Qed.
+Proof. intros A cap wpref prog c Hc. exact (ConcQueue.snapshots_are_last_n A cap Hc _ _ wpref eq_refl eq_refl prog c). Qed.
 Print Assumptions C18_concurrent_snapshots.
 
-Theorem C18_linearizable : forall (A : Type) (cap : nat) prog c, (1 <= cap)%nat ->
-  ConcQueue.reach A queue_add_locked queue_get_locked (ConcQueue.init A cap prog) c ->
+Theorem C18_linearizable : forall (A : Type) (cap : nat) (wpref : bool) prog c, (1 <= cap)%nat ->
+  ConcQueue.reach A queue_add_locked queue_get_locked wpref (ConcQueue.init A cap prog) c ->
   ConcQueue.legal A (new_queue cap) (ConcQueue.hist A c) (ConcQueue.absq A c) /\
   (forall i, exists p, ConcQueue.proj A i (ConcQueue.hist A c) = ConcQueue.outs A c i ++ p /\ (length p <= 1)%nat) /\
   (length (q_items (ConcQueue.absq A c)) <= cap)%nat /\
   ((forall i, ConcQueue.holdsW A queue_add_locked (ConcQueue.th A c i) = false) -> ConcQueue.shq A c = ConcQueue.absq A c).
-Proof. intros A cap prog c Hc. exact (ConcQueue.linearizable A cap Hc _ _ eq_refl eq_refl prog c). Qed.
+Proof. intros A cap wpref prog c Hc. exact (ConcQueue.linearizable A cap Hc _ _ wpref eq_refl eq_refl prog c). Qed.
 Print Assumptions C18_linearizable.
+
+(* No deadlock: n goroutines use the queue; in every configuration (reachable or not) in which the others are
+   idle, if some goroutine has not finished its program then some goroutine can take a step - with or
+   without Go's rule that a waiting writer keeps new readers out (wpref). *)
+Theorem C18_no_deadlock : forall (A : Type) (wpref : bool) (n : nat) (c : ConcQueue.conf A),
+  ConcQueue.quiet_above A n c -> (exists i, ConcQueue.th A c i <> ConcQueue.TIdle A []) ->
+  exists c', ConcQueue.step A queue_add_locked queue_get_locked wpref c c'.
+Proof. intros A wpref n c. exact (ConcQueue.no_deadlock A 1%nat (le_n 1) _ _ wpref eq_refl eq_refl n c). Qed.
+Print Assumptions C18_no_deadlock.
 
 (* Non-vacuity: with both locks in force, a goroutine adds 10 and 11 while another takes a snapshot in between:
    a reachable configuration in which the snapshot [10] has been handed out. *)
 Example C18_concurrent_example :
-  exists c, ConcQueue.reach nat true true (ConcQueue.init nat 2%nat NetExamples.cq_prog) c /\
+  exists c, ConcQueue.reach nat true true true (ConcQueue.init nat 2%nat NetExamples.cq_prog) c /\
             ConcQueue.outs nat c 1%nat = [ConcQueue.RGet nat [10]%nat] /\ ConcQueue.added nat c = [10; 11]%nat.
 Proof. exact NetExamples.concqueue_example. Qed.
 
@@ -60,7 +69,7 @@ Proof. exact NetExamples.concqueue_example. Qed.
    a schedule of three goroutines on a queue of capacity 1 after which the shared queue holds two
    messages - both later Adds evict before either inserts. *)
 Theorem C18_unlocked_witness :
-  exists c, ConcQueue.reach nat false true (ConcQueue.init nat 1%nat ConcQueue.wprog) c /\
+  exists c, ConcQueue.reach nat false true false (ConcQueue.init nat 1%nat ConcQueue.wprog) c /\
             (length (q_items (ConcQueue.shq nat c)) > 1)%nat.
 Proof. exact ConcQueue.unlocked_exceeds_capacity. Qed.
 Print Assumptions C18_unlocked_witness.
